@@ -864,30 +864,63 @@ func contains(l []uint64, v uint64) bool {
 }
 
 // quiesce waits until the goroutines started by the code under test are gone.
-// quiesceStuck is set by quiesce when it gave up because the goroutines it waits for
-// are provably parked inside the subscriber (same set on four consecutive dumps).
+//
+// The authority is a dump of all goroutines (runtime.Stack stops the world, so it is a
+// consistent snapshot): no goroutine other than the calling one may have a frame of vouch
+// or of this package's doubles - except goroutines parked inside the subscription
+// submitter double while it is told to hold its answers.  A goroutine that has been
+// created but has not run yet shows its entry function, so nothing can slip through, and
+// nothing in these code paths is started by a timer.  runtime.NumGoroutine is only used
+// as a cheap hint for when to look: the runtime documents its result as possibly
+// inconsistent while goroutines are created and freed on other CPUs, and on a heavily
+// loaded machine it was observed too low for long enough to end a wait early (start-up
+// subscription still running when the next history step switched the fault on).
+//
+// quiesceStuck is set when the wait gave up because the goroutines waited for are
+// provably parked inside the subscriber (same set on four consecutive dumps).
 var quiesceStuck bool
+
+var dumpBuf = make([]byte, 4<<20)
+
+// busyGoroutines returns how many goroutines other than the caller are inside vouch or
+// this package's code (not counting those held by the submitter double).
+func busyGoroutines() int {
+	n := runtime.Stack(dumpBuf, true)
+	blocks := strings.Split(string(dumpBuf[:n]), "\n\n")
+	busy := 0
+	for i, g := range blocks {
+		if i == 0 {
+			continue // the calling goroutine comes first
+		}
+		if !strings.Contains(g, "github.com/attestantio/vouch/") && !strings.Contains(g, "verifharness/c14.") {
+			continue
+		}
+		if strings.Contains(g, "testing.(*M).Run(") || strings.Contains(g, "testing.(*T).Run(") {
+			continue // the test binary's main goroutine / a parent test waiting for this one
+		}
+		if strings.Contains(g, "subsSubmitter).SubmitBeaconCommitteeSubscriptions") && strings.Contains(g, "[select") {
+			continue // held by the beacon node double until released
+		}
+		busy++
+	}
+	return busy
+}
 
 func quiesce(baseline int, parked ...func() int) bool {
 	quiesceStuck = false
 	var lastSet string
 	same := 0
-	// The goroutines waited for are runnable (all doubles answer immediately), so
-	// yielding is enough; sleeping is only the fallback on a heavily loaded machine.
 	deadline := time.Now().Add(30 * time.Second)
-	stable := 0
 	for spins := 0; ; spins++ {
 		extra := 0
 		for _, f := range parked {
 			extra += f()
 		}
-		if runtime.NumGoroutine() <= baseline+extra {
-			stable++
-			if stable >= 2 {
+		// hint: look when the count says so, and every so often regardless
+		if runtime.NumGoroutine() <= baseline+extra || spins%64 == 63 {
+			if busyGoroutines() == 0 {
 				return true
 			}
-		} else {
-			stable = 0
 		}
 		runtime.Gosched()
 		if spins > 200 {
